@@ -443,6 +443,10 @@ def _sampler(rng):
     for i in range(6):
         p["c%d" % i] = rnd(rng, -2, 2)
         p["d%d" % i] = rnd(rng, -2, 2)
+    if rng.random() < 0.5:  # inversion points down to x ~ 1e-6 (the smallest x_min of the property's domain)
+        shift = rnd(rng, 3, 10)
+        for k in ("umax", "umin", "lx", "ulow", "lx2"):
+            p[k] = p[k] - shift
     return p
 
 
@@ -624,12 +628,13 @@ def replay_path(point, off):
     import mpmath as mp
     import eko.mellin as mel
 
-    g = _get(point, ["t", "lx"])
-    if g is None:
+    g = _get(point, ["lx"])
+    if g is None or not (-60 < g[0] < 0):
         return None
-    t, lx = g
-    if not (0.02 < t < 0.98) or abs(t - 0.5) < 1e-3 or lx >= 0 or abs(t - 0.25) < 1e-3 or abs(t - 0.75) < 1e-3:
-        return None
+    lx = g[0]
+    t = float(point.get("t", 0.7))
+    if not (0.02 < t < 0.98) or abs(t - 0.5) < 1e-3 or abs(t - 0.25) < 1e-3 or abs(t - 0.75) < 1e-3:
+        t = 0.7  # the conditions below hold for every t or do not depend on it
     mp.mp.dps = 30
     P = mel.Path(t, lx, off)
     dn = mp.diff(lambda s: mp.mpmathify(mel.Path(float(s), lx, off).n), t, h=mp.mpf(10) ** -5)  # finite differences of the real n(t)
@@ -657,12 +662,13 @@ def replay_integrand(point, is_log, mode0, top=False):
     import numpy as np
 
     qk = importlib.import_module("eko.evolution_operator.quad_ker")  # (the package also exports a function of that name)
-    g = _get(point, ["t", "lx"])
-    if g is None:
+    g = _get(point, ["lx"])
+    if g is None or not (-60 < g[0] < 0):
         return None
-    t, lx = g
-    if not (0.5 < t < 0.98) or abs(t - 0.75) < 1e-3 or lx >= 0:
-        return None
+    lx = g[0]
+    t = float(point.get("t", 0.7))
+    if not (0.5 < t < 0.98) or abs(t - 0.75) < 1e-3:
+        t = 0.7
     # a fixed area above the inversion point; its Mellin transform is computed by quadrature
     cs = [0.7, -1.3]
     if is_log:
